@@ -72,6 +72,8 @@ impl Locations {
         self.dead_head_trips@[a]@[b]
     }
     /// the dead-head matrix is total on the stations and its entries are small
+    /// (opaque: the pairwise quantifier is only unfolded inside the lemmas / accessors that need it)
+    #[verifier::opaque]
     pub open spec fn wf(&self) -> bool {
         forall|a: LocationIdx, b: LocationIdx|
             #![trigger self.stations@.contains_key(a), self.stations@.contains_key(b)]
@@ -89,6 +91,23 @@ impl Locations {
     pub open spec fn sp_distance(&self, a: Location, b: Location) -> Distance {
         if a is Station && b is Station { self.sp_trip(a->Station_0, b->Station_0).distance } else { Distance::Infinity }
     }
+}
+
+pub proof fn lemma_locations_wf(l: &Locations, a: LocationIdx, b: LocationIdx)
+    requires l.wf(), l.stations@.contains_key(a), l.stations@.contains_key(b),
+    ensures l.dead_head_trips@.contains_key(a), l.dead_head_trips@[a]@.contains_key(b),
+        dur_small(l.sp_trip(a, b).travel_time),
+        l.sp_trip(a, b).distance is Distance && l.sp_trip(a, b).distance->Distance_0 <= 0x100_0000_0000,
+{
+    reveal(Locations::wf);
+}
+pub proof fn lemma_locations_wf2(l: &Locations, a: Location, b: Location)
+    requires l.wf(), l.has(a), l.has(b),
+    ensures a is Station && b is Station ==> l.dead_head_trips@.contains_key(a->Station_0) && l.dead_head_trips@[a->Station_0]@.contains_key(b->Station_0)
+        && dur_small(l.sp_trip(a->Station_0, b->Station_0).travel_time)
+        && l.sp_trip(a->Station_0, b->Station_0).distance is Distance && l.sp_trip(a->Station_0, b->Station_0).distance->Distance_0 <= 0x100_0000_0000,
+{
+    if a is Station && b is Station { lemma_locations_wf(l, a->Station_0, b->Station_0); }
 }
 
 impl Config {
@@ -130,10 +149,15 @@ impl Network {
     /// magnitudes small enough for the u64 arithmetic of the cost caches (stated precondition, not
     /// "arithmetic treated as mathematical"): rates <= 2^16, planning horizon, travel times and any
     /// span between two activity times <= 2^28 s (8.5 years), distances <= 2^40 m
-    pub open spec fn bounded(&self) -> bool {
-        &&& self.planning_days is Length && (self.planning_days->Length_0.seconds) <= 0x1000_0000
+    pub open spec fn bounded(&self) -> bool { self.bounded_scalars() && self.bounded_pairs() }
+    pub open spec fn bounded_scalars(&self) -> bool {
+        &&& self.planning_days is Length && self.planning_days->Length_0.seconds <= 0x1000_0000
         &&& self.config.costs.service_trip <= 0xffff && self.config.costs.maintenance <= 0xffff
         &&& self.config.costs.dead_head_trip <= 0xffff && self.config.costs.idle <= 0xffff
+    }
+    /// (opaque: the pairwise quantifiers are only unfolded inside the lemmas that need them)
+    #[verifier::opaque]
+    pub open spec fn bounded_pairs(&self) -> bool {
         &&& forall|a: LocationIdx, b: LocationIdx|
             #![trigger self.locations.stations@.contains_key(a), self.locations.stations@.contains_key(b)]
             self.locations.stations@.contains_key(a) && self.locations.stations@.contains_key(b) ==>
@@ -142,7 +166,6 @@ impl Network {
             self.nodes@.contains_key(i) && self.nodes@.contains_key(j) && self.sp_node(i).sp_is_activity() && self.sp_node(j).sp_is_activity()
                 ==> dt_rank(self.sp_node(j).sp_end_time()) - dt_rank(self.sp_node(i).sp_start_time()) <= 0x1000_0000
     }
-
     pub open spec fn wf(&self) -> bool {
         &&& self.locations.wf()
         &&& self.config.wf()
